@@ -491,7 +491,23 @@ save_expansion(Expansion &expansion, const string &exp, const vector_string &par
   bool stringify = false;
   bool paste = false;
   while (p < exp.size()) {
-    if (isalpha(exp[p]) || exp[p] == '_') {
+    if (exp[p] == '"' || (exp[p] == '\'' && (p == 0 || !isalnum(exp[p - 1])))) {
+      // A string or character literal is kept as it stands: parameter names,
+      // '#' and blanks inside it mean nothing.  (An apostrophe after a digit
+      // is a digit separator.)
+      char quote = exp[p];
+      ++p;
+      while (p < exp.size() && exp[p] != quote) {
+        if (exp[p] == '\\' && p + 1 < exp.size()) {
+          ++p;
+        }
+        ++p;
+      }
+      if (p < exp.size()) {
+        ++p;
+      }
+
+    } else if (isalpha(exp[p]) || exp[p] == '_') {
       // Here's the start of an identifier.  Find the end of it.
       size_t q = p;
       p++;
